@@ -1,28 +1,96 @@
 """C10 — primer pattern matching (pkg/obiapat + obialign.LocatePattern) reports exactly the matching
 positions and error counts."""
-import json, re
+import json, os, re
 
 PROPS = ["C10/Props.v"]
 META = dict(
-    text="Rocq theorems over an executable transcription of pkg/obiapat (CheckPattern/EncodePattern, CreateS, ManberNoErr, ManberSub, "
-         "ManberIndel on 64-bit state words, FindAllIndex windows, FilterBestMatch, AllMatches, BestMatch, complementPattern) and of "
-         "obialign.LocatePattern: for every pattern of 1..63 positions, every budget, text and window the hit list is exactly the "
-         "window positions whose mismatch count (obligatory positions never mismatched) is within the budget, each with that count; "
-         "complemented pattern == mirrored hits on the reverse-complemented text; the indel automaton equals Sellers' recurrence and "
-         "reports exactly the ends of text runs within the edit budget with the least cost; LocatePattern returns a span inside the "
-         "fragment whose edit distance to the pattern is the reported count and no run is closer. The model is evaluated by vm_compute "
-         "on the same cases the real cgo code ran on, and an independent brute-force Python oracle (mismatch count / Sellers / edit "
-         "distance) judges every observation of the real code.",
-    note="m = 64 is outside the theorems (1<<64 is undefined in C): observed only (known finding m64-never-matches). The window is the "
-         "code's: text positions [max(begin,0), min(begin+length+MAX_PAT_LEN, seqlen)). With indels the semantics of obligatory "
-         "positions is the code's (the initial state may drop obligatory leading positions): theorem C10_indel_sellers covers it, the "
-         "edit-script theorems assume no obligatory position, the oracle uses a sandwich. LocatePattern compares symbols with "
-         "obialign._samenuc (IUPAC on both sides) while the automaton uses the pattern's symbol sets: on texts with ambiguity codes "
-         "the two counts may differ (oracle exact only on acgt texts). Circular sequences belong to C11. Text symbols are letters "
-         "(EncodeSequence maps any other byte to 'a'). complementPattern string level: bounded theorem (strings of <= 6 characters).")
-TRUSTED = ["the IUPAC meaning of the pattern letters used by the Python oracle (A C G T U=T R Y M K S W B D H V N X=N, other letters empty)"]
+    text="Rocq theorems over an executable transcription of pkg/obiapat (CheckPattern/EncodePattern, MakeApatPattern's length limit, CreateS, "
+         "ManberNoErr, ManberSub, ManberIndel on 64-bit state words, EncodeSequence, FindAllIndex windows, FilterBestMatch, AllMatches, BestMatch, "
+         "ecoComplementPattern) and of obialign.LocatePattern. The letter tables and constants of the code (sDnaCode, LX_BIO_CDNA_ALPHA, "
+         "obialign._iupac, MAX_PAT_LEN, MAX_PAT_ERR, PATMASK, OBLIBIT, word width) are dumped from the CURRENT build into C10/Gen/Tables.v before "
+         "every Coq build, the model computes with them, and the theorems over them are re-proved by the kernel on every run: each letter's "
+         "symbol set / 4-bit code is exactly its IUPAC base set, the complement alphabet agrees with the complement of symbol sets, "
+         "_samenuc and the symbol sets are the same relation on a/c/g/t for every letter but X; a changed entry breaks the obligation and the "
+         "check computes the failing symbol and replays it on the real code. For every accepted pattern (1..63 positions: MakeApatPattern as "
+         "repaired refuses more), budget, text and window: the hit list is exactly the window positions whose mismatch count (obligatory "
+         "positions never mismatched) is within the budget, each with that count; the complemented pattern string of ANY length (induction on "
+         "the token structure of accepted strings) encodes the complemented pattern, whose hits mirror those on the reverse-complemented text; "
+         "the indel automaton equals Sellers' recurrence and reports exactly the ends of runs within the edit budget with the least cost; "
+         "LocatePattern returns a span inside the fragment whose edit distance to the pattern is the reported count and no run is closer; "
+         "FilterBestMatch returns exactly one first-least-error representative per overlap cluster, pairwise disjoint, every hit covered; "
+         "BestMatch reports a match iff the automaton does; AllMatches never reports a match without a hit and, on IUPAC-letter patterns and "
+         "a/c/g/t texts (where LocatePattern's and the automaton's edit scripts are proved to have the same costs), loses no filtered hit and "
+         "reports the automaton's own edit distance of the reported span. The model is evaluated by vm_compute on the same cases the real cgo "
+         "code ran on, and an independent brute-force Python oracle (mismatch count / Sellers / edit distance) judges every observation.",
+    note="Known findings: m64-rejected (the property says lengths 1..64; 64 symbols do not fit the 64-bit state word: refused with an error since "
+         "the repair, theorems C10_make_pattern_length / _too_long) and x-pattern-realign (X is N in sDnaCode and nothing in obialign._iupac: "
+         "re-aligned counts are off for patterns with X; theorem C10_samenuc_x_differs). The window is the code's: text positions "
+         "[max(begin,0), min(begin+length+MAX_PAT_LEN, seqlen)) (C10_window_covers_starts: it contains every occurrence starting in the "
+         "requested region). With indels the semantics of obligatory positions is the code's (the initial state may drop obligatory leading "
+         "positions): C10_indel_sellers covers it, the edit-script theorems assume no obligatory position, the oracle uses a sandwich. "
+         "LocatePattern compares with obialign._samenuc (IUPAC on both sides, reads the bytes of the pattern string: classes and negations are "
+         "not seen): outside the agreement domain (ambiguity codes in the text, classes, '!', X) only span / sub-list / soundness theorems "
+         "hold and the counts may differ (oracle exact only on the agreement domain). Observations recorded in the evidence, never an alarm: "
+         "strings outside the documented grammar that CheckPattern accepts (A##, A!#, !!A), texts holding non-letter bytes (EncodeSequence "
+         "reads them as 'a'); upper-case text is lower-cased by BioSequence before the matcher sees it. Budgets above MAX_PAT_ERR-1 = 63 would "
+         "overrun the state array r[2*MAX_PAT_ERR+2] of ManberSub/ManberIndel (not checked by buildPattern; outside the quantifier 0..4). "
+         "Circular sequences belong to C11 (here only as the previous content of a recycled ApatSequence).")
+TRUSTED = ["the IUPAC meaning of the pattern letters: Python oracle table IUPAC (A C G T U=T R Y M K S W B D H V N X=N, other letters empty) and, "
+           "independently, Model.v iupac_bases (26 lines) - the regenerated code tables are proved / checked against them",
+           "verif hooks pkg/obiapat/verif2_c10.go (GetCode(dna), ecoComplementPattern on one-character strings, apat.h constants) and "
+           "pkg/obialign/verif2_c10.go (_iupac) return the tables the code uses"]
 
 MAXPAT = 64
+VERIF = os.path.dirname(os.path.dirname(os.path.dirname(os.path.abspath(__file__))))
+TABLES_V = os.path.join(VERIF, "coq", "theories", "C10", "Gen", "Tables.v")
+
+
+# ------------------------------------------------------------------ regenerated tables (DESIGN 2.3-B; pattern: C07)
+def tables_source(t):
+    """Gallina source of C10/Gen/Tables.v from the harness' dump of the tables of the current build."""
+    def nl(l):
+        return "[" + "; ".join(str(x) for x in l) + "]"
+    comp = t["comp"]
+    other = [(b, comp[b]) for b in range(1, 256) if not 65 <= b <= 90 and comp[b] != b]
+    return ("(** GENERATED by tools/props/c10.py regen() from the CURRENT build (vh c10, case {\"kind\":\"tables\"}; hooks\n"
+            "    pkg/obiapat/verif2_c10.go, pkg/obialign/verif2_c10.go). Do not edit.\n"
+            "    dna_code_tab  : sDnaCode of apat_parse.c (GetCode(dna)), pattern letters A..Z: bit i = text letter 'a'+i;\n"
+            "    cdna_tab      : LX_BIO_CDNA_ALPHA of obiapat.c, letters A..Z (ecoComplementPattern on one-character strings);\n"
+            "    cdna_other    : every other byte 1..255 that ecoComplementPattern does not leave unchanged (byte, image);\n"
+            "    iupac_tab     : obialign._iupac, letters a..z: bit 0 = a, 1 = c, 2 = g, 3 = t;\n"
+            "    the constants of apat.h and the width in bits of patword_t. *)\n"
+            "From Coq Require Import NArith List.\nImport ListNotations.\nLocal Open Scope N_scope.\n\n"
+            "Definition dna_code_tab : list N := %s.\n\nDefinition cdna_tab : list N := %s.\n\n"
+            "Definition cdna_other : list (N * N) := [%s].\n\nDefinition iupac_tab : list N := %s.\n\n"
+            "Definition max_pat_len : N := %d.\nDefinition max_pat_err : N := %d.\nDefinition PATMASK : N := %d.\n"
+            "Definition OBLIBIT : N := %d.\nDefinition alpha_len : N := %d.\nDefinition patword_bits : N := %d.\n" % (
+                nl(t["dnacode"]), nl(comp[65:91]), "; ".join("(%d, %d)" % p for p in other), nl(t["iupac"]),
+                t["max_pat_len"], t["max_pat_err"], t["patmask"], t["oblibit"], t["alpha_len"], t["word_bits"]))
+
+
+def dump_tables(ctx):
+    obs, err = ctx.vh("c10", [dict(kind="tables")], timeout=60)
+    if obs is None:
+        raise RuntimeError("vh c10 tables: %s" % err)
+    return obs[0]["tables"]
+
+
+def regen(ctx):
+    """Called by check.py before the Coq build: rewrite C10/Gen/Tables.v from the current code (write-if-changed)."""
+    vh, err = ctx.build_harness()
+    if vh is None:
+        raise RuntimeError("harness build failed: %s" % err)
+    t = dump_tables(ctx)
+    src = tables_source(t)
+    os.makedirs(os.path.dirname(TABLES_V), exist_ok=True)
+    old = open(TABLES_V).read() if os.path.exists(TABLES_V) else None
+    if old != src:
+        with open(TABLES_V, "w") as f:
+            f.write(src)
+        ctx.cov["tables_regenerated"] = "changed"
+    else:
+        ctx.cov["tables_regenerated"] = "unchanged"
+    ctx._c10_tables = t
 IUPAC = dict(A="A", C="C", G="G", T="T", U="T", R="AG", Y="CT", M="AC", K="GT", S="CG", W="AT",
              B="CGT", D="AGT", H="ACT", V="ACG", N="ACGT", X="ACGT")
 ALL26 = (1 << 26) - 1
@@ -162,11 +230,113 @@ def revcomp_text(seq):
     return "".join(c.get(x, x) for x in reversed(seq))
 
 
+# ------------------------------------------------------------------ table obligations, computed (finite) so that the failing symbol is replayed
+BASE_BIT = dict(A=1, C=2, G=4, T=8)
+
+
+def comp_set_mask(m):
+    r = 0
+    cm = {0: 19, 19: 0, 2: 6, 6: 2}
+    for b in range(26):
+        if (m >> b) & 1:
+            r |= 1 << cm.get(b, b)
+    return r
+
+
+def table_failures(t):
+    """Executable statement of the table theorems of C10/TableProofs.v on the dumped tables: list of (table, symbol, what)."""
+    bad = []
+    dc, comp, iu = t["dnacode"], t["comp"], t["iupac"]
+    for i in range(26):
+        L = chr(65 + i)
+        if dc[i] != letter_mask(L):
+            bad.append(("sDnaCode", L, "sDnaCode[%s] = 0x%x, IUPAC base set %r = 0x%x" % (L, dc[i], IUPAC.get(L, ""), letter_mask(L))))
+        cl = comp[65 + i]
+        if not 65 <= cl <= 90 or dc[cl - 65] != comp_set_mask(dc[i]):
+            bad.append(("LX_BIO_CDNA_ALPHA", L, "complement of %s is %r whose symbol set is not the complemented set of %s" % (L, chr(cl), L)))
+        elif L in COMP and chr(cl) != COMP[L]:
+            bad.append(("LX_BIO_CDNA_ALPHA", L, "complement of %s is %r, expected %r" % (L, chr(cl), COMP[L])))
+        want = sum(BASE_BIT[x] for x in IUPAC.get(L, ""))
+        if L != "X" and iu[i] != want:
+            bad.append(("obialign._iupac", L.lower(), "_iupac[%s] = %d, IUPAC base set %r = %d" % (L.lower(), iu[i], IUPAC.get(L, ""), want)))
+    for b in range(1, 256):
+        if not 65 <= b <= 90 and comp[b] != b:
+            bad.append(("LX_BIO_CDNA_ALPHA", chr(b), "byte %d is changed into %d by ecoComplementPattern" % (b, comp[b])))
+    consts = dict(max_pat_len=64, word_bits=64, alpha_len=26, patmask=(1 << 26) - 1, oblibit=1 << 26)
+    for k, v in consts.items():
+        if t[k] != v:
+            bad.append(("constants", k, "%s = %d, expected %d" % (k, t[k], v)))
+    if not t["max_pat_err"] < 10000:
+        bad.append(("constants", "max_pat_err", "MAX_PAT_ERR = %d is not below the 10000 marker of FilterBestMatch" % t["max_pat_err"]))
+    return bad
+
+
+def table_replay_cases(tab, sym):
+    """inputs for the real code on which a wrong entry of the table shows"""
+    txt = "acgtnacgtryacgtttgca"
+    if tab == "sDnaCode":
+        return [dict(pat=sym, k=0, indel=False, seq=txt, begin=0, length=-1, apis=False, tag="table"),
+                dict(pat="AC" + sym + "GT", k=1, indel=False, seq="acagtaccgtacggtactgt", begin=0, length=-1, apis=False, tag="table")]
+    if tab == "LX_BIO_CDNA_ALPHA":
+        if not "A" <= sym <= "Z":
+            return [dict(pat="A" + sym + "C" if sym in "!" else "AC" + sym if sym == "#" else "A[CG]T", k=0, indel=False, seq=txt, begin=0, length=-1,
+                         apis=False, rcseq=revcomp_text(txt), tag="table")]
+        return [dict(pat=sym, k=0, indel=False, seq=txt, begin=0, length=-1, apis=False, rcseq=revcomp_text(txt), tag="table"),
+                dict(pat="A" + sym + "#G", k=0, indel=False, seq=txt, begin=0, length=-1, apis=False, rcseq=revcomp_text(txt), tag="table")]
+    if tab == "obialign._iupac":
+        return [dict(kind="locate", pat=sym, seq=b, tag="table") for b in "acgt"] + \
+               [dict(kind="locate", pat="ac" + sym + "gt", seq="ttac" + b + "gttt", tag="table") for b in "acgt"]
+    if tab == "constants":
+        # a hit in the margin [begin+length+32, begin+length+64) and a 63-symbol pattern starting in the requested region
+        pat = "ACGTTGCAAC" * 4
+        return [dict(pat=pat, k=0, indel=False, seq="tttt" + pat.lower() + "tttt", begin=0, length=5, apis=False, tag="table"),
+                dict(pat="A" * 30, k=1, indel=True, seq="c" * 10 + "a" * 29 + "c" * 10, begin=0, length=11, apis=True, tag="table")]
+    return []
+
+
+def replay_tables(ctx, t):
+    """The table theorems are finite: compute the failing symbols from the dump and replay each on the real code."""
+    seen = {}
+    fails = table_failures(t)
+    ctx.cov["table_obligations"] = dict(letters=26, bytes=255, constants=6, failing=len(fails))
+    for tab, sym, what in fails:
+        if seen.get(tab, 0) >= 2:
+            continue
+        seen[tab] = seen.get(tab, 0) + 1
+        cases = table_replay_cases(tab, sym)
+        obs = ctx.vh_robust("c10", [{k: v for k, v in c.items() if k != "tag"} for c in cases], timeout=60, one_timeout=10)
+        verdicts = [[list(b) for b in (judge(c, o) if o.get("kind") != "crash" else [("crash", o.get("err"))])][:3] for c, o in zip(cases, obs)]
+        first = next((i for i, v in enumerate(verdicts) if v), 0)
+        ctx.violation("table_%s_%d" % (re.sub(r"\W", "", tab), ord(sym[0]) if len(sym) == 1 else seen[tab]),
+                      dict(property="C10", kind="table-obligation", table=tab, symbol=sym, why=what, case=cases[first] if cases else None,
+                           implementation=obs[first] if cases else None, oracle=verdicts[first] if cases else None,
+                           all_cases=cases, all_verdicts=verdicts, tables=t))
+
+
 # ------------------------------------------------------------------ model of the Go post-processing (oracle side)
+def filter_spec(find):
+    """executable statement of C10_filter_best_clusters: greedy overlap clusters of the hits in order (a hit joins the current cluster
+    iff its span widened by its error count overlaps the widened span of the best hit of the cluster so far), one representative per
+    cluster: the first hit of least error count"""
+    clusters = []
+    for h in find:
+        if clusters:
+            cur = clusters[-1]
+            rep = min(cur, key=lambda x: x[2])          # min() returns the first minimal element
+            if h[0] - h[2] < rep[1] + rep[2]:
+                cur.append(h)
+                continue
+        clusters.append([h])
+    return [min(c, key=lambda x: x[2]) for c in clusters]
+
+
 def filter_best_props(find, filt):
-    """property-level demands on FilterBestMatch: sub-list of the hits, pairwise disjoint, contains a hit of minimal error"""
+    """property-level demands on FilterBestMatch: sub-list of the hits, pairwise disjoint, contains a hit of minimal error, and exactly one
+    first-least-error representative per overlap cluster"""
     if not all(h in find for h in filt):
         return "not a sub-list of the hits"
+    if [list(x) for x in filt] != [list(x) for x in filter_spec(find)]:
+        return "not the least-error representatives of the overlap clusters: expected %r" % filter_spec(find)[:6]
     for a, b in zip(filt, filt[1:]):
         if not a[1] <= b[0]:
             return "overlapping reported matches"
@@ -262,8 +432,53 @@ def gen_text(rng, P, k, indel, L=None):
     return "".join(t)
 
 
+def gen_edge_pattern(rng, m):
+    """'!' and '#' on the first / last position, classes holding IUPAC letters"""
+    syms = [gen_symbol(rng, 0.15) for _ in range(m)]
+    def deco(x):
+        core = x.strip("!#")
+        r = rng.random()
+        if r < 0.3:
+            core = "[" + "".join(rng.sample("ACGTRYMKSWBDHVN", rng.randrange(1, 4))) + "]"
+        return rng.choice(["!", "", ""]) + core + rng.choice(["#", "", ""])
+    syms[0] = deco(syms[0])
+    syms[-1] = deco(syms[-1])
+    if m > 2 and rng.random() < 0.5:
+        i = rng.randrange(1, m - 1)
+        syms[i] = rng.choice(["!", ""]) + "[" + "".join(rng.sample("ACGTRYMKSWBDHVN", rng.randrange(1, 5))) + "]" + rng.choice(["#", ""])
+    return "".join(syms)
+
+
+def dirty_text(rng, seq, nonletters=False):
+    """upper-case letters (BioSequence lower-cases them) and, on request, non-letter bytes (EncodeSequence reads them as 'a')"""
+    t = list(seq)
+    for _ in range(rng.randrange(1, 4)):
+        if t:
+            i = rng.randrange(len(t))
+            t[i] = rng.choice(["-", ".", "*", "0", " ", "~", "@", "[", "`", "{"]) if nonletters and rng.random() < 0.6 else t[i].upper()
+    if rng.random() < 0.3:
+        t = [x.upper() for x in t]
+    return "".join(t)
+
+
+def nonletter_cases(rng, n):
+    """texts holding bytes that are not letters: outside the property (sequences are nucleotide codes); EncodeSequence reads them as
+    'a', LocatePattern reads the byte itself: observation only"""
+    cases = []
+    for seq in ("ac-tacgt", "acgt.cgt", "ac*t", "a c g t a c g t", "-acgt-", "acg~", "0123"):
+        for pat, k, indel in (("ACGT", 0, False), ("ACGT", 1, False), ("ACGT", 1, True), ("ACAT", 0, False), ("AAAT", 2, True)):
+            cases.append(dict(pat=pat, k=k, indel=indel, seq=seq, begin=0, length=-1, apis=True, tag="non-letter-text"))
+    for _ in range(n):
+        c = gen_case(rng)
+        c["seq"] = dirty_text(rng, c["seq"], True)
+        c.pop("rcseq", None)
+        c["tag"] = "non-letter-text"
+        cases.append(c)
+    return cases
+
+
 def gen_case(rng, m=None, apis=True):
-    pat = gen_pattern(rng, m)
+    pat = gen_pattern(rng, m) if rng.random() < 0.8 else gen_edge_pattern(rng, m or rng.choice([1, 2, 3, 5, 8, 13, 20, 33]))
     P = parse_pattern(pat)
     k = rng.choice([0, 0, 1, 1, 2, 2, 3, 4])
     indel = rng.random() < 0.4
@@ -276,12 +491,46 @@ def gen_case(rng, m=None, apis=True):
     else:
         begin = rng.choice([-1, 0, 1, L - len(P), L - 1, L, L + 1]) if rng.random() < 0.4 else rng.randrange(0, L + 1)
         length = rng.choice([-1, 0, 1, len(P), L]) if rng.random() < 0.4 else rng.randrange(0, L + 2)
+    dirty = rng.random() < 0.06
+    if dirty:
+        seq = dirty_text(rng, seq)
     c = dict(pat=pat if rng.random() < 0.7 else pat.lower(), k=k, indel=indel, seq=seq, begin=begin, length=length, apis=apis)
+    if dirty:
+        c["tag"] = "dirty-text"
     if rng.random() < 0.3:
-        c["prev"] = gen_text(rng, P, k, indel, L=rng.choice([0, L // 2, L, 2 * L + 70, 400]))
-    if rng.random() < 0.5:
+        c["prev"] = gen_text(rng, P, k, indel, L=rng.choice([0, 1, L // 2, max(L - 1, 0), L, L + 1, 2 * L + 70, 3 * L, 400]))
+        c["prevcirc"] = rng.random() < 0.4
+    if rng.random() < 0.5 and not dirty:
         c["rcseq"] = revcomp_text(seq)
     return c
+
+
+def gen_window_cases(rng, n):
+    """windows (begin, length) around every boundary: the start and the end of a planted hit against begin, begin+length and the
+    end of the scanned region begin+length+MAX_PAT_LEN, both ends of the sequence"""
+    cases = []
+    for _ in range(n):
+        m = rng.choice([1, 2, 5, 12, 20, 40, 63])
+        pat = gen_pattern(rng, m, rng.choice([0.0, 0.15]))
+        P = parse_pattern(pat)
+        k = rng.choice([0, 1, 2])
+        indel = rng.random() < 0.35
+        pre = rng.randrange(0, 90)
+        post = rng.randrange(0, 90)
+        w = mutate(rng, instance(rng, P), rng.randrange(0, k + 1), rng.randrange(0, k + 1) if indel else 0)
+        seq = "".join(rng.choice("acgt") for _ in range(pre)) + "".join(w) + "".join(rng.choice("acgt") for _ in range(post))
+        L, hs, he = len(seq), pre, pre + len(w)
+        begins = {0, -1, 1, hs - 1, hs, hs + 1, he - 1, he, he + 1, L - m, L - 1, L, L + 1, he - MAXPAT - 1, he - MAXPAT}
+        for begin in rng.sample(sorted(begins), 4):
+            b = max(begin, 0)
+            lengths = {-1, 0, 1, hs - b, hs - b + 1, he - b - MAXPAT - 1, he - b - MAXPAT, he - b - MAXPAT + 1, he - b, L - b, L - b - MAXPAT, L - b + 1, m}
+            for length in rng.sample(sorted(x for x in lengths if x >= -1), 3):
+                cases.append(dict(pat=pat, k=k, indel=indel, seq=seq, begin=begin, length=length, apis=rng.random() < 0.5, tag="window"))
+    return cases
+
+
+JUNK = ["A##", "A!#", "A!#C", "A#!#", "AC##G", "!!A", "A!!#", "!![AC]#", "A#!!C", "AC!#G#"]
+EDGE = ["A#CGT", "ACGT#", "!ACGT", "ACG!T", "!A#CG!T#", "[RY]CG[NA]", "![RC]#CGT![KM]#", "[ACGT]", "![ACGT]CC", "N#", "!N", "[AR]#[CY]#", "A#", "!A#"]
 
 
 CORPUS = [
@@ -320,6 +569,23 @@ def gen_cases(ctx, n):
     cases = [dict(c) for c in CORPUS]
     for pat in MALFORMED:
         cases.append(dict(pat=pat, k=1, indel=False, seq="acgtacgt", begin=0, length=-1, apis=False, malformed=True))
+    for pat in EDGE:          # '#' / '!' on the first and the last position, classes with IUPAC letters: whole text, both ends, both strands
+        for k, indel in ((0, False), (1, False), (2, False), (1, True)):
+            seq = "acgtacgttagcatcgacgtacgcgtaacgt"
+            cases.append(dict(pat=pat, k=k, indel=indel, seq=seq, begin=0, length=-1, apis=True, tag="edge-pattern",
+                              **({} if indel else dict(rcseq=revcomp_text(seq)))))
+    # upper-case and non-letter bytes in the text; an ambiguity code of the text under a pattern letter; X in the pattern
+    for seq in ("ACGTACGT", "acgTAcgt", "ttacntttacgt", "nnnnnnnn", "ttacgtrtacgt", "TTACGTNNACGT"):
+        for pat, k, indel in (("ACGT", 0, False), ("ACGT", 1, False), ("ACGT", 1, True), ("ACNT", 1, True), ("AAAT", 2, True)):
+            cases.append(dict(pat=pat, k=k, indel=indel, seq=seq, begin=0, length=-1, apis=True, tag="dirty-text"))
+    for pat, k, indel in (("ACXT", 0, False), ("ACXT", 1, True), ("XXXX", 1, True), ("AXGT", 2, True)):
+        cases.append(dict(pat=pat, k=k, indel=indel, seq="ttacgttttactttagtttaccttt", begin=0, length=-1, apis=True, tag="x-in-pattern"))
+    # recycled ApatSequence: previous sequences of other lengths, linear or circular, then the real one
+    for prev in ("", "a", "acgt" * 3, "acgt" * 40, "acgt" * 200):
+        for circ in (False, True):
+            cases.append(dict(pat="ACGTAC", k=1, indel=False, seq="ttacgtacttacgaactt", begin=0, length=-1, apis=True, prev=prev, prevcirc=circ, tag="recycled"))
+            cases.append(dict(pat="ACGTAC", k=1, indel=True, seq="ttacgtacttacgaactt", begin=3, length=4, apis=True, prev=prev, prevcirc=circ, tag="recycled"))
+    cases += gen_window_cases(rng, 12 if ctx.quick else 150)
     for m in range(1, 64):                      # every pattern length, match touching both ends of the text
         pat = gen_pattern(rng, m, 0.15)
         P = parse_pattern(pat)
@@ -412,10 +678,16 @@ def judge(c, o):
         if o["kind"] != "paterr":
             bad.append(("malformed-accepted", o["kind"]))
         return bad
+    if c.get("junk"):
+        # accepted by CheckPattern although outside the documented grammar ("A##", "A!#", "!!A"): the property says nothing about
+        # them; the model follows the C code on them (correspondence only)
+        return [] if o["kind"] in ("ok", "paterr") else [("junk-crash", o.get("err", o["kind"]))]
     if o["kind"] != "ok":
         return [("not-ok", o.get("err", o["kind"]))]
     if o["patlen"] != len(P):
         return [("patlen", o["patlen"])]
+    if o.get("stored") is not None and o["stored"] != c["seq"].lower():
+        return [("stored-sequence", o["stored"][:60])]          # BioSequence holds the lower-cased bytes
     t = text_codes(c["seq"])
     k, indel = c["k"], c["indel"]
     if len(P) >= MAXPAT:
@@ -561,26 +833,27 @@ def case_term(c, o):
         return "CLocate %s %s (%s,%s,%s)" % (bytes_term(c["pat"].encode()), bytes_term(c["seq"].encode()), zt(o["loc"][0]), zt(o["loc"][1]), zt(o["loc"][2]))
     if o.get("kind") == "paterr":
         return "CPatErr %s" % bytes_term(c["pat"].encode())
-    t = text_codes(c["seq"])
+    raw = list((o.get("stored") if o.get("stored") is not None else c["seq"].lower()).encode("latin-1"))
     apis = "None"
     if c.get("apis") and not o.get("all_panic") and not o.get("best_panic") and o.get("best") is not None:
         b = o["best"]
         apis = "(Some (%s, %s, (%s,%s,%s,%s)))" % (triples_term(o["filter"]), triples_term(o["all"]), zt(b[0]), zt(b[1]), zt(b[2]),
                                                   "true" if b[3] else "false")
     cp = "None"
-    if "rcseq" in c and o.get("cpat"):
+    if "rcseq" in c and o.get("cpat") and not c.get("junk"):      # the complement of a string outside the grammar is not claimed
         cp = "(Some %s)" % bytes_term(o["cpat"].encode())
     # the pattern goes to the model as the bytes of its string: the model runs its own CheckPattern / EncodePattern
     return "CMatch (mkc %s %d %s [%s]%%N %s %s %s %s %s %s)" % (bytes_term(c["pat"].encode()), c["k"], "true" if c["indel"] else "false",
-                                                               ";".join(map(str, t)), zt(c["begin"]), zt(c["length"]), zt(o["patlen"]),
+                                                               ";".join(map(str, raw)), zt(c["begin"]), zt(c["length"]), zt(o["patlen"]),
                                                                triples_term(o["find"]), apis, cp)
 
 
-KNOWN_M64 = "m64-never-matches"
+KNOWN_M64 = "m64-rejected"
+KNOWN_X = "x-pattern-realign"
 
 
-def evaluate(ctx, cases, broken, label, report=True, corr=True):
-    obs = ctx.vh_robust("c10", [{k: v for k, v in c.items() if k not in ("tag", "malformed")} for c in cases], timeout=600, one_timeout=10)
+def evaluate(ctx, cases, broken, label, report=True, corr=True, judge_fn=None):
+    obs = ctx.vh_robust("c10", [{k: v for k, v in c.items() if k not in ("tag", "malformed", "junk")} for c in cases], timeout=600, one_timeout=10)
     nviol = 0
     failed = set()
     seen_clauses = set()
@@ -588,7 +861,13 @@ def evaluate(ctx, cases, broken, label, report=True, corr=True):
         if o.get("kind") == "crash":
             bad = [("crash", o.get("err"))]
         else:
-            bad = judge(c, o)
+            bad = (judge_fn or judge)(c, o)
+        if bad and c.get("kind") != "locate" and "X" in c.get("pat", "").upper() and c.get("indel") and c.get("k", 0) > 0 \
+                and all(b[0] in ("all-count", "all-iff", "best-count", "best-count-above-automaton") for b in bad) and ctx.kf_match(KNOWN_X):
+            ctx.known(KNOWN_X, "a pattern position X (any base for the automaton: sDnaCode) is compatible with no base in obialign._iupac: the "
+                               "re-alignment of an indel hit counts it as an error (AllMatches / BestMatch count, hit possibly dropped)")
+            failed.add(i)
+            bad = []
         if bad:
             failed.add(i)
             nviol += 1
@@ -601,25 +880,71 @@ def evaluate(ctx, cases, broken, label, report=True, corr=True):
     idx = [i for i, (c, o) in enumerate(zip(cases, obs))
            if (c.get("kind") == "locate" and o.get("loc") is not None) or
               (c.get("kind") != "locate" and (o.get("kind") == "paterr" or (o.get("kind") == "ok" and 0 < o["patlen"] < MAXPAT)))]
-    bad, err = ctx.correspond(label, IMPORTS, [case_term(cases[i], obs[i]) for i in idx], shard=150)
-    if bad is None:
-        broken.append(dict(kind="correspondence", detail=err))
-        return obs, [], failed
-    return obs, [idx[i] for i in bad], failed
+    # sequences of thousands of symbols are heavy inside Coq (lists of N): at most 12 of them go through the model, in small shards
+    # of their own; the others are judged by the direct oracle only
+    longs = [i for i in idx if cases[i].get("kind") != "locate" and len(cases[i]["seq"]) > 2000]
+    keep_long = set(longs[:12])
+    ctx.cov["long_sequences_oracle_only"] = ctx.cov.get("long_sequences_oracle_only", 0) + len(longs) - len(keep_long)
+    short = [i for i in idx if i not in set(longs)]
+    mism = []
+    for part, name, shard in ((short, label, 100), (sorted(keep_long), label + "_long", 3)):
+        if not part:
+            continue
+        for attempt in range(2):
+            bad, err = ctx.correspond(name, IMPORTS, [case_term(cases[i], obs[i]) for i in part], shard=shard)
+            if bad is None and ("Killed" in err[-300:] or "Terminated" in err[-300:]) and "Error" not in err and attempt == 0:
+                import time
+                time.sleep(45)          # coqc killed from outside (out-of-memory on a loaded machine): once more
+                continue
+            break
+        if bad is None:
+            broken.append(dict(kind="correspondence", detail=err))
+            return obs, [], failed
+        mism += [part[i] for i in bad]
+    return obs, sorted(mism), failed
 
 
 def m64_cases(ctx, n):
+    """patterns of 64 symbols (in the quantifier of the property) and longer ones (outside it)"""
     rng = ctx.rng
     cases = [dict(pat="ACGT" * 16, k=0, indel=False, seq="tt" + "acgt" * 16 + "tt", begin=0, length=-1, apis=False, tag="m64")]
-    for _ in range(n):
-        pat = gen_pattern(rng, 64, 0.0)
+    for i in range(n):
+        m = 64 if i % 2 == 0 else rng.choice([65, 66, 70, 100, 127, 128, 129, 200])
+        pat = gen_pattern(rng, m, rng.choice([0.0, 0.0, 0.15]))
         P = parse_pattern(pat)
         k = rng.choice([0, 1, 2])
-        cases.append(dict(pat=pat, k=k, indel=False, seq=gen_text(rng, P, k, False), begin=0, length=-1, apis=False))
+        cases.append(dict(pat=pat, k=k, indel=rng.random() < 0.3, seq=gen_text(rng, P, k, False), begin=0, length=-1, apis=False, tag="m%d" % m))
     return cases
 
 
+def judge_m64(ctx, c64, o64):
+    """64 symbols: the documented maximum when the property was written. As repaired MakeApatPattern refuses >= 64 symbols: a clean
+    error is still not what the letter of the property asks for length 64 (known finding); accepting such a pattern and answering
+    anything but the specification is a violation; longer patterns must be refused."""
+    wrong = 0
+    for i, (c, o) in enumerate(zip(c64, o64)):
+        P = parse_pattern(c["pat"])
+        exp = find_all_spec(P, c["k"], text_codes(c["seq"]), 0, -1)
+        if o.get("kind") == "paterr":
+            if len(P) == 64:
+                wrong += 1
+                if ctx.kf_match(KNOWN_M64):
+                    ctx.known(KNOWN_M64, "a pattern of 64 symbols (the maximum of the property's quantifier) is refused by MakeApatPattern "
+                                         "('pattern too long': the 64-bit state word holds 63 positions)")
+                else:
+                    ctx.violation("m64_%d" % i, dict(property="C10", kind="direct-oracle", clause="m64-rejected", case=c, implementation=o, expected=exp))
+        elif o.get("kind") != "ok" or c["indel"] or o["find"] != exp:
+            # accepted: then it has to match like any other pattern (mismatch mode is exact; an accepted indel pattern of this size is not modelled)
+            wrong += 1
+            if wrong <= 3:
+                ctx.violation("m64_%d" % i, dict(property="C10", kind="direct-oracle", clause="pattern-too-long-accepted", case=c,
+                                                 implementation={k: (v[:6] if isinstance(v, list) else v) for k, v in o.items()}, expected=exp[:6]))
+    return wrong
+
+
 def run(ctx, broken):
+    t = getattr(ctx, "_c10_tables", None) or dump_tables(ctx)
+    replay_tables(ctx, t)
     n = 300 if ctx.quick else 8000
     sc = oracle_selfcheck(ctx.rng, 100 if ctx.quick else 2000)
     if sc:
@@ -630,18 +955,24 @@ def run(ctx, broken):
         cases += ex
         ctx.cov["exhaustive"] = "every pattern over {A,C} of 1..3 symbols x every text over {a,c} of 0..6 symbols x budgets 0..2 x {mismatch, indel}: %d cases" % len(ex)
     obs, mism, failed = evaluate(ctx, cases, broken, "main")
-    # patterns of 64 symbols (documented maximum): outside the theorems, observed
+    # texts with bytes that are not letters: observation only (what the code does is recorded, the model says the same or not)
+    nl = nonletter_cases(ctx.rng, 10 if ctx.quick else 200)
+    onl, mnl, _ = evaluate(ctx, nl, [], "nonletter", report=False, judge_fn=lambda c, o: [])
+    ctx.cov["non_letter_texts"] = dict(cases=len(nl), model_differs=len(mnl),
+                                       with_hits=sum(1 for o in onl if o.get("find")),
+                                       note="observation only: EncodeSequence maps every byte that is not a lower-case letter to 'a' (ACAT matches ac-t); "
+                                            "LocatePattern compares the byte itself")
+    # strings accepted by CheckPattern although outside the documented grammar ("A##", "A!#", "!!A"): the property says nothing
+    # about them; recorded only (does the model still follow the C code on them?), never an alarm
+    junk = [dict(pat=pat, k=k, indel=False, seq="acgtaccgtagnacaacc", begin=0, length=-1, apis=False, junk=True, tag="junk") for pat in JUNK for k in (0, 1)]
+    ojunk, mjunk, _ = evaluate(ctx, junk, [], "junk", report=False)
+    ctx.cov["outside_grammar"] = dict(cases=len(junk), accepted=sum(1 for o in ojunk if o.get("kind") == "ok"), model_differs=len(mjunk),
+                                      note="observation only: strings such as A## or A!# pass CheckPattern; the model transcribes what EncodePattern does with them")
+    # patterns of 64 symbols (maximum of the property's quantifier) and more: refused by MakeApatPattern as repaired
     c64 = m64_cases(ctx, 20 if ctx.quick else 300)
-    o64 = ctx.vh_robust("c10", [{k: v for k, v in c.items() if k != "tag"} for c in c64], timeout=120, one_timeout=10)
-    miss64 = 0
-    for c, o in zip(c64, o64):
-        exp = find_all_spec(parse_pattern(c["pat"]), c["k"], text_codes(c["seq"]), 0, -1)
-        if o.get("kind") != "ok" or o["find"] != exp:
-            miss64 += 1
-            if ctx.kf_match(KNOWN_M64):
-                ctx.known(KNOWN_M64, "a pattern of 64 symbols (the documented maximum) is accepted but never matches: 1<<64 on the 64-bit state word (apat_search.c)")
-            else:
-                ctx.violation("m64_%d" % miss64, dict(property="C10", kind="direct-oracle", clause="m64", case=c, implementation=o, expected=exp))
+    o64, mism64, _ = evaluate(ctx, c64, broken, "m64", report=False, judge_fn=lambda c, o: [])
+    miss64 = judge_m64(ctx, c64, o64)
+    mism = mism + [len(cases) + i for i in mism64]
     ctx.cov["m64_cases"] = len(c64)
     ctx.cov["m64_wrong"] = miss64
     ctx.cov["evaluations"] = len(cases) + len(c64)
@@ -660,16 +991,49 @@ def run(ctx, broken):
             key = "locate"
         elif c.get("malformed"):
             key = "malformed/" + o.get("kind", "?")
+        elif c.get("junk"):
+            key = "accepted-outside-grammar/" + o.get("kind", "?")
         else:
             P = parse_pattern(c["pat"])
             key = "%s/k%d/m%s/%s" % ("indel" if c["indel"] else "sub", c["k"], "1-4" if len(P) < 5 else "5-31" if len(P) < 32 else "32-63",
                                     "hit" if o.get("find") else "nohit")
         dist[key] = dist.get(key, 0) + 1
     ctx.cov["distribution"] = dist
+    tags = {}
+    for c in cases:
+        if c.get("tag"):
+            tags[c["tag"]] = tags.get(c["tag"], 0) + 1
+    ctx.cov["cases_by_tag"] = tags
     ctx.cov["recycled_sequences"] = sum(1 for c in cases if "prev" in c)
+    ctx.cov["recycled_from_circular"] = sum(1 for c in cases if c.get("prevcirc"))
     ctx.cov["windows_not_whole"] = sum(1 for c in cases if c.get("kind") != "locate" and (c["begin"], c["length"]) != (0, -1))
     ctx.samples = [dict(case=c, implementation={k: o.get(k) for k in ("kind", "find", "all", "best", "cpat", "loc")})
                    for c, o in list(zip(cases, obs))[:2] + list(zip(cases, obs))[200:202] + list(zip(cases, obs))[-2:]]
+    # goal-4 observation, measured: outside the agreement domain (ambiguity codes in the text, classes, negations) the count of a
+    # re-aligned match is LocatePattern's (_samenuc), compared here with the edit distance under the automaton's symbol sets
+    outside = dict(cases=0, realigned=0, count_equal=0, count_below_automaton_semantics=0, count_above=0, example_below=None, example_above=None)
+    for c, o in zip(cases, obs):
+        if c.get("kind") == "locate" or c.get("malformed") or o.get("kind") != "ok" or not c.get("apis") or not (c["indel"] and c["k"] > 0):
+            continue
+        P = parse_pattern(c["pat"])
+        if P is None or len(P) >= MAXPAT or "X" in c["pat"].upper():
+            continue
+        if plain_text(c["seq"].lower()) and all(ch in "ACGTURYMKSWBDHVN" for ch in c["pat"].upper()):
+            continue
+        outside["cases"] += 1
+        t = text_codes(c["seq"])
+        for s_, e_, d_ in (o.get("all") or []):
+            if [s_, e_, d_] in o["find"] or not 0 <= s_ <= e_ <= len(t):
+                continue
+            outside["realigned"] += 1
+            ed = edit_distance(P, t[s_:e_])
+            key = "count_equal" if ed == d_ else "count_below_automaton_semantics" if d_ < ed else "count_above"
+            outside[key] += 1
+            if d_ < ed and outside["example_below"] is None:
+                outside["example_below"] = dict(pat=c["pat"], seq=c["seq"][:80], k=c["k"], reported=[s_, e_, d_], edit_distance_symbol_sets=ed)
+            if d_ > ed and outside["example_above"] is None:
+                outside["example_above"] = dict(pat=c["pat"], seq=c["seq"][:80], k=c["k"], reported=[s_, e_, d_], edit_distance_symbol_sets=ed)
+    ctx.cov["outside_agreement_domain"] = outside
     ctx.cov["model_vs_impl_mismatches"] = len(mism)
     unexplained = [i for i in mism if i not in failed]
     if unexplained and not ctx.violations:
@@ -677,13 +1041,18 @@ def run(ctx, broken):
         evaluate(ctx, more, [], "search", corr=False)      # direct oracle only
         if not ctx.violations:
             i = unexplained[0]
-            broken.append(dict(kind="correspondence", name="corr:C10/FindAllIndex+FilterBestMatch+AllMatches+BestMatch+LocatePattern+complementPattern", first_diverging_case=cases[i],
-                               implementation=obs[i], n_diverging=len(mism)))
+            broken.append(dict(kind="correspondence", name="corr:C10/MakeApatPattern+FindAllIndex+FilterBestMatch+AllMatches+BestMatch+LocatePattern+complementPattern",
+                               first_diverging_case=(cases + c64)[i], implementation=(obs + o64)[i], n_diverging=len(mism)))
     elif mism:
         ctx.cov["note"] = "model and implementation diverge on %d cases (violations reported by the direct oracle)" % len(mism)
 
 
 def replay(ctx, rp):
+    if rp.get("kind") == "table-obligation":      # re-dump the tables of the current build and re-evaluate the finite obligations
+        bad = table_failures(dump_tables(ctx))
+        print("replay: tables of the current build, %s[%r]:" % (rp.get("table"), rp.get("symbol")),
+              [w for tb, sy, w in bad if (tb, sy) == (rp.get("table"), rp.get("symbol"))] or "obligations hold",
+              "| all failing entries:", sorted({(tb, sy) for tb, sy, _ in bad}))
     c = rp.get("case") or rp.get("first_diverging_case") or rp.get("broken", [{}])[0].get("first_diverging_case")
     if not c:
         print("replay: no case in the replay file (proof obligation / build problem):", json.dumps(rp)[:1500])
